@@ -774,7 +774,7 @@ package vanguard
 //@   ensures validTR(r) && r.rw == old(r.rw)
 //@   ensures[C14] ownMsg(r.msg)
 //@   loop 1 invariant n == 0 && validTR(r) && r.err == nil && r.rw == old(r.rw) && rwStep(r.rw) && (r.buffer != nil ==> r.buffer != r.rw.buf) && ownMsg(r.msg)
-//@   loop 1 invariant[C16] reads <= 1 && preps <= reads && (reads == 1 && r.rw.op.serverEnveloper != nil ==> r.envRemain == 5)
+//@   loop 1 invariant[C16] reads >= 0 && preps <= reads && (r.rw.op.serverEnveloper != nil ==> reads <= 1 && (reads == 1 ==> r.envRemain == 5))
 
 //@ func (*transformingReader).Close
 //@   requires validTR(r)
